@@ -9,12 +9,17 @@ import DecProofs.Properties.C03GenCompare
 import DecProofs.Properties.C13GenNoncomp
 import DecProofs.Properties.C02RoundHelpers
 import DecProofs.TableFacts.Mechanisms
+import Mathlib.Tactic.Ring
+import Mathlib.Tactic.Linarith
 
 set_option linter.unusedSimpArgs false
 set_option linter.unusedVariables false
 
 namespace Dec.C06GenToInt
 open Dec.Rs Dec.Gen.Code
+open Dec.C03GenCompare (val128 val128_lt sigW sigF zeroP nzFin negW expW expW_lt inf_test steer_test coeff_hi gt128 zero128 toNat_and_field val128_sigF)
+open Dec.C03GenCompare (mul_64x64_to_128_spec tbl64_ten tbl128_ten int32_gt_lit ofInt_toNat_of_nonneg)
+open Dec.C13GenNoncomp (float_exp tblDD_nr nr_q log2_shift log2_hi toI_u64 toI_u32 toI_i32 u64_ofInt_nat u32_ofInt_nat shr32 nr_bound i32_of_small)
 
 /-! ### the blocks of the case analysis, in continuation-passing style (each is the text of the Rust routine) -/
 
@@ -197,5 +202,346 @@ def skel_int (x : U128) (f : UInt32) : Except String (Int32 × UInt32) :=
 
 set_option maxRecDepth 100000 in
 theorem int_unfold (x : U128) (f : UInt32) : bid128_to_int32_int x f = skel_int x f := rfl
+
+/-! ### specifications of the blocks -/
+
+/-- the table index the code derives from the exponent field of `v as f64`: bit length − 1 (offset by the word position) -/
+theorem idx32 (v : UInt64) (K : UInt32) (h0 : 0 < v.toNat) (h53 : v.toNat < 2^53) (hK1 : 1 ≤ K.toNat) (hK2 : K.toNat ≤ 65) :
+    UInt64.ofInt (toI ((K + (((UInt32.ofInt (toI ((F64U.ofU64 (UInt64.ofInt (toI v))).bits >>> 0x34))) &&& 0x7ff) - 0x3ff)) - 1))
+      = UInt64.ofNat (K.toNat - 1 + v.toNat.log2) := by
+  obtain ⟨f1, f2⟩ := float_exp v.toNat h0 h53
+  have hl : v.toNat.log2 < 53 := (Nat.log2_lt (by omega)).2 h53
+  have e1 : (UInt64.ofInt (toI v)) = v := by rw [toI_u64, u64_ofInt_nat, UInt64.ofNat_toNat]
+  have e2 : ((F64U.ofU64 v).bits >>> 0x34).toNat = v.toNat.log2 + 1023 := by
+    rw [UInt64.toNat_shiftRight, F64U.ofU64, UInt64.toNat_ofNat', Nat.mod_eq_of_lt (by omega),
+      show (0x34 : UInt64).toNat % 64 = 52 from by decide, Nat.shiftRight_eq_div_pow, f1]
+  have e3 : (K + (((UInt32.ofInt (toI ((F64U.ofU64 v).bits >>> 0x34))) &&& 0x7ff) - 0x3ff)).toNat = K.toNat + v.toNat.log2 := by
+    rw [UInt32.toNat_add, UInt32.toNat_sub, UInt32.toNat_and, toI_u64, u32_ofInt_nat, UInt32.toNat_ofNat', e2,
+      show (0x7ff : UInt32).toNat = 2^11 - 1 from by decide, Nat.and_two_pow_sub_one_eq_mod,
+      show (0x3ff : UInt32).toNat = 1023 from by decide]
+    omega
+  rw [e1, toI_u32, UInt32.toNat_sub, e3, show (1 : UInt32).toNat = 1 from by decide, u64_ofInt_nat]
+  congr 1
+  omega
+
+
+/-- the digit-count tail once the table row is known -/
+def nrRow (D D1 : UInt32) (THI TLO : UInt64) (C1 : U128) : Int32 :=
+  if Int32.ofInt (toI D) = 0 then
+    (if THI.toNat * 2^64 + TLO.toNat ≤ C1.w1.toNat * 2^64 + C1.w0.toNat then Int32.ofInt (toI D1) + 1 else Int32.ofInt (toI D1))
+  else Int32.ofInt (toI D)
+
+theorem nrDigitsK_row {α : Type} (C1 : U128) (k : Int32 → Except String α) (i : Nat) (D D1 : UInt32) (THI TLO : UInt64)
+    (hrow : tblDD Dec.Gen.BID_NR_DIGITS (UInt64.ofNat i) = .ok ⟨D, THI, TLO, D1⟩)
+    (hidx : (if (C1.w1 == 0) = true then
+        (if decide (C1.w0 ≥ 0x20000000000000) = true then
+          UInt64.ofInt (toI (((0x21 : UInt32) + (((UInt32.ofInt (toI ((F64U.ofU64 (UInt64.ofInt (toI (C1.w0 >>> 0x20)))).bits >>> 0x34))) &&& 0x7ff) - 0x3ff)) - 1))
+         else UInt64.ofInt (toI (((1 : UInt32) + (((UInt32.ofInt (toI ((F64U.ofU64 (UInt64.ofInt (toI C1.w0))).bits >>> 0x34))) &&& 0x7ff) - 0x3ff)) - 1)))
+       else UInt64.ofInt (toI (((0x41 : UInt32) + (((UInt32.ofInt (toI ((F64U.ofU64 (UInt64.ofInt (toI C1.w1))).bits >>> 0x34))) &&& 0x7ff) - 0x3ff)) - 1)))
+      = UInt64.ofNat i) :
+    nrDigitsK C1 k = k (nrRow D D1 THI TLO C1) := by
+  have := C1.w0.toNat_lt; have := TLO.toNat_lt
+  unfold nrDigitsK nrRow
+  simp only [bind, Except.bind, pure, Except.pure]
+  have ev : ∀ (b : Except String Bool) (v : Bool), b = .ok v →
+      (match b with
+        | .error e => (.error e : Except String α)
+        | .ok v_2 => if v_2 = true then k (Int32.ofInt (toI D1) + 1) else k (Int32.ofInt (toI D1))) =
+      k (if v = true then Int32.ofInt (toI D1) + 1 else Int32.ofInt (toI D1)) := by
+    intro b v hb; subst hb; cases v <;> rfl
+  have key : (if decide (C1.w1 > THI) = true then Except.ok true
+      else if (C1.w1 == THI) = true then Except.ok (decide (C1.w0 ≥ TLO)) else (Except.ok false : Except String Bool))
+      = .ok (decide (THI.toNat * 2^64 + TLO.toNat ≤ C1.w1.toNat * 2^64 + C1.w0.toNat)) := by
+    by_cases h1 : C1.w1 > THI
+    · have : THI.toNat * 2^64 + TLO.toNat ≤ C1.w1.toNat * 2^64 + C1.w0.toNat := by
+        rw [gt_iff_lt, UInt64.lt_iff_toNat_lt] at h1; omega
+      simp only [h1, decide_true, if_true, this]
+    · by_cases h2 : C1.w1 = THI
+      · have : (THI.toNat * 2^64 + TLO.toNat ≤ C1.w1.toNat * 2^64 + C1.w0.toNat) ↔ C1.w0 ≥ TLO := by
+          rw [ge_iff_le, UInt64.le_iff_toNat_le, h2]; omega
+        rw [h2] at this
+        simp only [h2, gt_iff_lt, UInt64.lt_irrefl, decide_false, Bool.false_eq_true, if_false, beq_self_eq_true, if_true]
+        rw [decide_eq_decide.2 this]
+      · have : ¬ THI.toNat * 2^64 + TLO.toNat ≤ C1.w1.toNat * 2^64 + C1.w0.toNat := by
+          rw [gt_iff_lt, UInt64.lt_iff_toNat_lt] at h1
+          rw [← UInt64.toNat_inj] at h2
+          omega
+        have h2' : (C1.w1 == THI) = false := by rw [beq_eq_false_iff_ne]; exact h2
+        simp only [h1, decide_false, Bool.false_eq_true, if_false, h2', this]
+  have fin : (if (Int32.ofInt (toI D) == 0) = true then
+        k (if decide (THI.toNat * 2^64 + TLO.toNat ≤ C1.w1.toNat * 2^64 + C1.w0.toNat) = true
+          then Int32.ofInt (toI D1) + 1 else Int32.ofInt (toI D1))
+      else k (Int32.ofInt (toI D))) =
+      k (if Int32.ofInt (toI D) = 0 then
+        (if THI.toNat * 2^64 + TLO.toNat ≤ C1.w1.toNat * 2^64 + C1.w0.toNat then Int32.ofInt (toI D1) + 1 else Int32.ofInt (toI D1))
+        else Int32.ofInt (toI D)) := by
+    by_cases h0 : Int32.ofInt (toI D) = 0
+    · simp only [h0, beq_self_eq_true, if_true, decide_eq_true_eq]
+    · have h0' : (Int32.ofInt (toI D) == 0) = false := by rw [beq_eq_false_iff_ne]; exact h0
+      simp only [h0', Bool.false_eq_true, if_false, h0]
+  by_cases c1 : (C1.w1 == 0) = true
+  · rw [if_pos c1] at hidx
+    rw [if_pos c1]
+    by_cases c2 : decide (C1.w0 ≥ 0x20000000000000) = true
+    · rw [if_pos c2] at hidx
+      rw [if_pos c2, hidx]
+      simp only [hrow, key, ev _ _ rfl, fin]
+    · rw [if_neg c2] at hidx
+      rw [if_neg c2, hidx]
+      simp only [hrow, key, ev _ _ rfl, fin]
+  · rw [if_neg c1] at hidx
+    rw [if_neg c1, hidx]
+    simp only [hrow, key, ev _ _ rfl, fin]
+
+
+theorem u64_beq0 (a : UInt64) : (a == 0) = decide (a.toNat = 0) := by
+  rw [Bool.eq_iff_iff, beq_iff_eq, decide_eq_true_eq, ← UInt64.toNat_inj, UInt64.toNat_zero]
+
+/-- **digit count**: for a non-zero coefficient below 2^113 the block continues with the number of decimal digits (as an
+`Int32`); no table access panics -/
+theorem nrDigitsK_spec (C1 : U128) (h0 : 0 < val128 C1) (hC : val128 C1 < 2^113) :
+    ∃ Q : Int32, Q.toInt = (ndigits (val128 C1) : Int) ∧
+      ∀ {α : Type} (k : Int32 → Except String α), nrDigitsK C1 k = k Q := by
+  have hl := C1.w0.toNat_lt
+  have hL : (val128 C1).log2 < 113 := (Nat.log2_lt (by omega)).2 hC
+  have hq := nr_q (val128 C1) h0 hC
+  refine ⟨_, hq, fun k => ?_⟩
+  have hrow := tblDD_nr _ hL
+  rw [nrDigitsK_row C1 k _ _ _ _ _ hrow]
+  · rfl
+  · unfold val128 at *
+    by_cases c5 : C1.w1.toNat = 0
+    · rw [if_pos (by rw [u64_beq0]; simpa using c5)]
+      by_cases c6 : 2^53 ≤ C1.w0.toNat
+      · rw [if_pos (by rw [Dec.C13GenNoncomp.u64_ge]; simpa using c6),
+          idx32 _ 0x21 (by rw [shr32]; omega) (by rw [shr32]; omega) (by decide) (by decide)]
+        rw [shr32, show UInt32.toNat 0x21 - 1 = 32 from by decide, log2_shift _ c6, c5]
+        simp only [Nat.zero_mul, Nat.zero_add]
+      · rw [if_neg (by rw [Dec.C13GenNoncomp.u64_ge]; simpa using c6),
+          idx32 _ 1 (by omega) (by omega) (by decide) (by decide)]
+        rw [show UInt32.toNat 1 - 1 = 0 from by decide, c5]
+        simp only [Nat.zero_mul, Nat.zero_add]
+    · rw [if_neg (by rw [u64_beq0]; simpa using c5),
+        idx32 _ 0x41 (by omega) (by omega) (by decide) (by decide)]
+      rw [show UInt32.toNat 0x41 - 1 = 64 from by decide, log2_hi _ _ c5 hl]
+
+
+/-- the unbiased exponent as the code extracts it -/
+theorem exp_toInt (w : UInt64) :
+    (Int32.ofInt (toI (((w &&& c_MASK_EXP) >>> 0x31) - (0x1820 : UInt64)))).toInt = (expW w.toNat : Int) - 6176 := by
+  have e : ((w &&& c_MASK_EXP) >>> 0x31).toNat = expW w.toNat := by
+    unfold expW
+    rw [UInt64.toNat_shiftRight, toNat_and_field w _ 14 49 (by decide), show (0x31 : UInt64).toNat % 64 = 49 from by decide,
+      Nat.shiftRight_eq_div_pow, Nat.mul_div_cancel _ (by decide)]
+  have hl := expW_lt w.toNat
+  rw [Int32.toInt_ofInt, toI_u64, UInt64.toNat_sub, e, show (0x1820 : UInt64).toNat = 6176 from by decide]
+  rw [show Int32.size = 2^32 from rfl]
+  by_cases hge : 6176 ≤ expW w.toNat
+  · have : ((2 ^ 64 - 6176 + expW w.toNat) % 2 ^ 64 : Nat) = expW w.toNat - 6176 := by omega
+    rw [this, Int.bmod_eq_of_le (by omega) (by omega)]; omega
+  · have : (((2 ^ 64 - 6176 + expW w.toNat) % 2 ^ 64 : Nat) : Int) = ((expW w.toNat : Int) - 6176) + (2^32 : Int) * ((2^32 : Nat) : Int) := by
+      omega
+    rw [this, Int.add_mul_bmod_self_right, Int.bmod_eq_of_le (by omega) (by omega)]
+
+
+theorem sigF_eq (x : U128) : (⟨x.w0, x.w1 &&& c_MASK_COEFF⟩ : U128) = sigF x := rfl
+
+/-- **front end**: NaN / infinity → `inv`; zeros (non-canonical encodings included) → `zero`; otherwise the continuation gets
+the sign word, the coefficient words, the digit count of the coefficient and the unbiased exponent -/
+theorem frontK_spec {α : Type} (x : U128) (inv zero : Except String α)
+    (k : UInt64 → U128 → Int32 → Int32 → Except String α) :
+    (x.w1.toNat / 2^59 % 16 = 15 → frontK x inv zero k = inv) ∧
+    (x.w1.toNat / 2^59 % 16 ≠ 15 → zeroP x.w1.toNat x.w0.toNat → frontK x inv zero k = zero) ∧
+    (nzFin x → ∃ Q E : Int32, Q.toInt = (ndigits (sigW x.w1.toNat x.w0.toNat) : Int) ∧
+      E.toInt = (expW x.w1.toNat : Int) - 6176 ∧
+      frontK x inv zero k = k (x.w1 &&& c_MASK_SIGN) (sigF x) Q E) := by
+  have hl := x.w0.toNat_lt
+  have e1 : ((x.w1 &&& c_MASK_SPECIAL) == c_MASK_SPECIAL) = decide (x.w1.toNat / 2^59 % 16 = 15) := inf_test x.w1
+  have e2 : (decide ((x.w1 &&& c_MASK_COEFF) > (0x1ed09bead87c0 : UInt64)) ||
+      ((x.w1 &&& c_MASK_COEFF) == (0x1ed09bead87c0 : UInt64) && decide (x.w0 > (0x378d8e63ffffffff : UInt64))) ||
+      ((x.w1 &&& (0x6000000000000000 : UInt64)) == (0x6000000000000000 : UInt64)) ||
+      ((x.w1 &&& c_MASK_COEFF) == (0 : UInt64) && x.w0 == (0 : UInt64))) = decide (zeroP x.w1.toNat x.w0.toNat) :=
+    by rw [← Dec.C03GenCompare.zeroTest_eq x]; unfold Dec.C03GenCompare.zeroTest; rw [← steer_test]; rfl
+  unfold frontK
+  rw [e1]
+  refine ⟨fun h => by rw [if_pos (by simpa using h)], fun h hz => ?_, fun ⟨h, hz⟩ => ?_⟩
+  · rw [if_neg (by simpa using h)]
+    by_cases c : ((decide ((x.w1 &&& c_MASK_COEFF) > (0x1ed09bead87c0 : UInt64)) ||
+      ((x.w1 &&& c_MASK_COEFF) == (0x1ed09bead87c0 : UInt64) && decide (x.w0 > (0x378d8e63ffffffff : UInt64))) ||
+      ((x.w1 &&& (0x6000000000000000 : UInt64)) == (0x6000000000000000 : UInt64)))) = true
+    · rw [if_pos c]
+    · rw [if_neg c]
+      have : ((x.w1 &&& c_MASK_COEFF) == (0 : UInt64) && x.w0 == (0 : UInt64)) = true := by
+        have := e2
+        rw [Bool.not_eq_true] at c
+        rw [c, Bool.false_or, decide_eq_true hz] at this
+        exact this
+      rw [if_pos this]
+  · rw [if_neg (by simpa using h)]
+    have e3 := e2
+    rw [decide_eq_false hz, Bool.or_eq_false_iff] at e3
+    rw [if_neg (by rw [e3.1]; decide), if_neg (by rw [e3.2]; decide), sigF_eq]
+    have hz' := hz
+    unfold zeroP at hz'
+    have hs : 0 < sigW x.w1.toNat x.w0.toNat := by omega
+    have hs' : sigW x.w1.toNat x.w0.toNat < 2^113 := by unfold sigW; omega
+    rw [← val128_sigF] at hs hs'
+    obtain ⟨Q, hQ, hk⟩ := nrDigitsK_spec (sigF x) hs hs'
+    rw [val128_sigF] at hQ
+    exact ⟨Q, _, hQ, exp_toInt x.w1, hk _⟩
+
+
+/-! ### the range test -/
+
+theorem mach_eq : @mul_64x64_to_128MACH = @mul_64x64_to_128 := rfl
+
+/-- 64 × 128 → 128 bit multiplication (low 128 bits): exact when the product fits -/
+theorem mul_128x64_to_128_spec (a : UInt64) (B : U128) (h : a.toNat * val128 B < 2^128) :
+    ∃ r, mul_128x64_to_128 a B = .ok r ∧ val128 r = a.toNat * val128 B := by
+  obtain ⟨m, hm, mv⟩ := mul_64x64_to_128_spec a B.w0
+  refine ⟨⟨m.w0, m.w1 + a * B.w1⟩, ?_, ?_⟩
+  · simp only [mul_128x64_to_128, mach_eq, bind, Except.bind, pure, Except.pure, hm]
+  · have e : a.toNat * val128 B = a.toNat * B.w1.toNat * 2^64 + a.toNat * B.w0.toNat := by unfold val128; ring
+    rw [e, ← mv] at h ⊢
+    have := m.w0.toNat_lt; have := m.w1.toNat_lt
+    simp only [val128, UInt64.toNat_add, UInt64.toNat_mul]
+    generalize a.toNat * B.w1.toNat = t at *
+    have hsum : t + m.w1.toNat < 2^64 := by
+      apply Classical.byContradiction
+      intro hc
+      have := Nat.mul_le_mul_right (2^64) (Nat.le_of_not_lt hc)
+      omega
+    rw [Nat.mod_eq_of_lt (a := m.w1.toNat + t % 2^64) (by omega), Nat.mod_eq_of_lt (a := t) (by omega)]
+    linarith
+
+
+theorem i32_sub (a b : Int32) (h1 : -2^31 ≤ a.toInt - b.toInt) (h2 : a.toInt - b.toInt < 2^31) :
+    (a - b).toInt = a.toInt - b.toInt := by
+  rw [Int32.toInt_sub]; exact Int.bmod_eq_of_le (by omega) (by omega)
+
+theorem i32_add (a b : Int32) (h1 : -2^31 ≤ a.toInt + b.toInt) (h2 : a.toInt + b.toInt < 2^31) :
+    (a + b).toInt = a.toInt + b.toInt := by
+  rw [Int32.toInt_add]; exact Int.bmod_eq_of_le (by omega) (by omega)
+
+theorem i32_neg (a : Int32) (h1 : -2^31 < a.toInt) : (-a).toInt = -a.toInt := by
+  have := a.toInt_lt; have := a.le_toInt
+  rw [Int32.toInt_neg]; exact Int.bmod_eq_of_le (by omega) (by omega)
+
+/-- table index from a small non-negative `Int32` -/
+theorem idx_of_i32 (d : Int32) (g : Nat) (hd : d.toInt = g) : (UInt64.ofInt (toI d)).toNat = g := by
+  have := d.toInt_lt
+  show (UInt64.ofInt d.toInt).toNat = g
+  rw [hd, ofInt_toNat_of_nonneg _ (by omega) (by omega)]; omega
+
+/-- `c · 10^(q − 11)` for `12 ≤ q ≤ 34` and a constant below 2^36: exact, no panic -/
+theorem scaleC_spec (c : UInt64) (q : Int32) (n : Nat) (hq : q.toInt = n) (h12 : 12 ≤ n) (h34 : n ≤ 34) (hc : c.toNat < 2^36) :
+    ∃ r, scaleC c q = .ok r ∧ val128 r = c.toNat * 10 ^ (n - 11) := by
+  unfold scaleC
+  have d11 : (q - 0xb).toInt = ((n - 11 : Nat) : Int) := by
+    rw [i32_sub _ _ (by rw [hq]; show (-2^31 : Int) ≤ n - 11; omega) (by rw [hq]; show (n : Int) - 11 < 2^31; omega), hq]
+    show (n : Int) - 11 = _; omega
+  by_cases h : q - 0xb ≤ 0x13
+  · rw [if_pos (by simpa using h)]
+    rw [Int32.le_iff_toInt_le, d11, show (0x13 : Int32).toInt = 19 from rfl] at h
+    have hk := idx_of_i32 _ _ d11
+    obtain ⟨t, ht, tv⟩ := tbl64_ten (UInt64.ofInt (toI (q - 0xb))) (by omega)
+    obtain ⟨r, hr, rv⟩ := mul_64x64_to_128_spec c t
+    refine ⟨r, ?_, ?_⟩
+    · simp only [bind, Except.bind, pure, Except.pure, ht, mach_eq, hr]
+    · show r.w1.toNat * 2^64 + r.w0.toNat = _
+      rw [rv, tv, hk]
+  · rw [if_neg (by simpa using h)]
+    rw [Int32.le_iff_toInt_le, d11, show (0x13 : Int32).toInt = 19 from rfl] at h
+    have d31 : (q - 0x1f).toInt = ((n - 31 : Nat) : Int) := by
+      rw [i32_sub _ _ (by rw [hq]; show (-2^31 : Int) ≤ n - 31; omega) (by rw [hq]; show (n : Int) - 31 < 2^31; omega), hq]
+      show (n : Int) - 31 = _; omega
+    have hk := idx_of_i32 _ _ d31
+    obtain ⟨t, ht, tv⟩ := tbl128_ten (UInt64.ofInt (toI (q - 0x1f))) (by omega)
+    rw [hk, show n - 31 + 20 = n - 11 by omega] at tv
+    have hb : c.toNat * 10 ^ (n - 11) < 2^128 := by
+      calc c.toNat * 10 ^ (n - 11) < 2^36 * 10 ^ 23 :=
+            Nat.mul_lt_mul_of_lt_of_le hc (Nat.pow_le_pow_right (by decide) (by omega)) (Nat.pow_pos (by decide))
+        _ < 2^128 := by decide
+    obtain ⟨r, hr, rv⟩ := mul_128x64_to_128_spec c t (by rw [tv]; exact hb)
+    refine ⟨r, ?_, ?_⟩
+    · simp only [bind, Except.bind, pure, Except.pure, ht, hr]
+    · rw [rv, tv]
+
+
+/-- the comparison of the range test on numbers: strict (`a > b`) or not (`a ≥ b`) -/
+def cmpN (s : Bool) (a b : Nat) : Bool := if s then decide (b < a) else decide (b ≤ a)
+
+theorem cmp64_eq (s : Bool) (a b : UInt64) : cmp64 s a b = cmpN s a.toNat b.toNat := by
+  unfold cmp64 cmpN
+  cases s <;> simp only [Bool.false_eq_true, if_true, if_false, decide_eq_decide, gt_iff_lt, ge_iff_le, UInt64.lt_iff_toNat_lt,
+    UInt64.le_iff_toNat_le]
+
+theorem cmp128_eq (s : Bool) (A B : U128) : cmp128 s A B = cmpN s (val128 A) (val128 B) := by
+  have := A.w0.toNat_lt; have := B.w0.toNat_lt
+  unfold cmp128 cmpN val128
+  cases s <;> rw [Bool.eq_iff_iff] <;>
+  simp only [Bool.false_eq_true, if_true, if_false, Bool.or_eq_true, Bool.and_eq_true, decide_eq_true_eq, beq_iff_eq, gt_iff_lt,
+    ge_iff_le, UInt64.lt_iff_toNat_lt, UInt64.le_iff_toNat_le, ← UInt64.toNat_inj] <;> omega
+
+theorem val128_small (A : U128) (h : val128 A < 2^64) : A.w1.toNat = 0 := by
+  unfold val128 at h; omega
+
+/-- **range test**: with `n` digits and exponent `e`: more than 10 integer digits → `inv`; exactly 10 → `inv` iff
+`C·10^(11−n)` (that is `10·|x|`, scaled) passes the copy's comparison with its constant; otherwise continue -/
+theorem rangeK_spec {α : Type} (P : RangeP) (xs : UInt64) (C1 : U128) (q exp : Int32) (inv k : Except String α)
+    (n : Nat) (e : Int) (hq : q.toInt = n) (he : exp.toInt = e) (h1 : 1 ≤ n) (h34 : n ≤ 34)
+    (hC : val128 C1 < 10 ^ n) (he1 : -10000 ≤ e) (he2 : e ≤ 10000)
+    (hcN : P.cN.toNat < 2^36) (hcP : P.cP.toNat < 2^36) :
+    rangeK P xs C1 q exp inv k =
+      if 10 < (n : Int) + e then inv
+      else if (n : Int) + e = 10 then
+        (if xs ≠ 0 then
+          (if cmpN P.sN (val128 C1 * 10 ^ (11 - n)) (P.cN.toNat * 10 ^ (n - 11)) = true then inv else k)
+         else (if cmpN P.sP (val128 C1 * 10 ^ (11 - n)) (P.cP.toNat * 10 ^ (n - 11)) = true then inv else k))
+      else k := by
+  have hsum : (q + exp).toInt = (n : Int) + e := by rw [i32_add _ _ (by omega) (by omega), hq, he]
+  unfold rangeK
+  by_cases c1 : 10 < (n : Int) + e
+  · rw [if_pos c1, if_pos (by rw [decide_eq_true_eq, int32_gt_lit, hsum]; exact c1)]
+  rw [if_neg c1, if_neg (by rw [decide_eq_true_eq, int32_gt_lit, hsum]; exact c1)]
+  by_cases c2 : (n : Int) + e = 10
+  swap
+  · rw [if_neg c2, if_neg (by rw [beq_iff_eq, ← Int32.toInt_inj, hsum]; exact c2)]
+  rw [if_pos c2, if_pos (by rw [beq_iff_eq, ← Int32.toInt_inj, hsum]; exact c2)]
+  -- the two sides are the same code with different parameters
+  have side : ∀ (s : Bool) (c : UInt64), c.toNat < 2^36 →
+      (if decide (q ≤ (0xb : Int32)) = true then
+        (do let tmp64 := (C1.w0 * (← tbl64 Dec.Gen.BID_TEN2K64 (UInt64.ofInt (toI (((0xb : Int32) - q))))))
+            if cmp64 s tmp64 c then inv else k)
+       else (do let C ← scaleC c q
+                if cmp128 s C1 C then inv else k)) =
+      (if cmpN s (val128 C1 * 10 ^ (11 - n)) (c.toNat * 10 ^ (n - 11)) = true then inv else k) := by
+    intro s c hc
+    by_cases c3 : n ≤ 11
+    · rw [if_pos (by rw [decide_eq_true_eq, Int32.le_iff_toInt_le, hq]; show (n : Int) ≤ 11; omega)]
+      have d : ((0xb : Int32) - q).toInt = ((11 - n : Nat) : Int) := by
+        rw [i32_sub _ _ (by rw [hq]; show (-2^31 : Int) ≤ 11 - n; omega) (by rw [hq]; show (11 : Int) - n < 2^31; omega), hq]
+        show (11 : Int) - n = _; omega
+      have hk := idx_of_i32 _ _ d
+      obtain ⟨t, ht, tv⟩ := tbl64_ten (UInt64.ofInt (toI ((0xb : Int32) - q))) (by omega)
+      rw [hk] at tv
+      have hpow : 10 ^ n * 10 ^ (11 - n) = 10 ^ 11 := by rw [← Nat.pow_add]; congr 1; omega
+      have hlt : val128 C1 * 10 ^ (11 - n) < 10 ^ 11 := by
+        rw [← hpow]; exact Nat.mul_lt_mul_of_pos_right hC (Nat.pow_pos (by decide))
+      have hC' : val128 C1 < 10 ^ 11 := Nat.lt_of_lt_of_le hC (Nat.pow_le_pow_right (by decide) c3)
+      have hw1 : C1.w1.toNat = 0 := val128_small C1 (Nat.lt_trans hC' (by decide))
+      have hv : val128 C1 = C1.w0.toNat := by unfold val128; rw [hw1, Nat.zero_mul, Nat.zero_add]
+      simp only [bind, Except.bind, ht, cmp64_eq, UInt64.toNat_mul, tv]
+      rw [← hv, Nat.mod_eq_of_lt (Nat.lt_trans hlt (by decide)), show n - 11 = 0 from Nat.sub_eq_zero_of_le c3, Nat.pow_zero, Nat.mul_one]
+    · rw [if_neg (by rw [decide_eq_true_eq, Int32.le_iff_toInt_le, hq]; show ¬ (n : Int) ≤ 11; omega)]
+      obtain ⟨r, hr, rv⟩ := scaleC_spec c q n hq (by omega) h34 hc
+      simp only [bind, Except.bind, hr, cmp128_eq, rv]
+      rw [show 11 - n = 0 from Nat.sub_eq_zero_of_le (Nat.le_of_lt (Nat.lt_of_not_le c3)), Nat.pow_zero, Nat.mul_one]
+  by_cases c4 : xs ≠ 0
+  · rw [if_pos c4, if_pos (by simpa [bne_iff_ne] using c4)]
+    exact side P.sN P.cN hcN
+  · rw [if_neg c4, if_neg (by simpa [bne_iff_ne] using c4)]
+    exact side P.sP P.cP hcP
+
 
 end Dec.C06GenToInt
